@@ -1,9 +1,392 @@
 # C12lit — parts (b) literal denotations and (c) equivalent renderings of C12 (see C12.py).
+#
+# (b) every literal spelling is evaluated on the real runtime through  return <literal>  (gvh-front lua =
+#     hx.RunLuaCase: load + call) and compared with its denotation by the manual (§3.1), computed here
+#     independently (python int/float/float.fromhex are exact / correctly rounded) and, for integer numerals,
+#     also by the extracted Coq model Front/Lex.v (S = manual, IM = ast.NewNumber).
+# (c) programs rendered in equivalent spellings must give identical results and traces.
+import re
+import struct
+
+from lib import vlib
+
+TWO63 = 1 << 63
+TWO64 = 1 << 64
+
+
+def fbits(x):
+    if x != x:
+        return "fnan"
+    return "f%016x" % struct.unpack("<Q", struct.pack("<d", x))[0]
+
+
+def hexsrc(b):
+    if isinstance(b, str):
+        b = b.encode("latin-1")
+    return b.hex() if b else "-"
+
+
+# ----------------------------------------------------------------------------- numerals
+def ref_number(text):
+    """the manual's denotation of a numeral, as canonical value"""
+    t = text.lower()
+    if t.startswith("0x"):
+        body = t[2:]
+        if "." in body or "p" in body:
+            try:
+                return fbits(float.fromhex(text))
+            except OverflowError:
+                return fbits(float("inf"))
+        n = int(body, 16) % TWO64
+        return "i%d" % (n - TWO64 if n >= TWO63 else n)
+    if "." in t or "e" in t:
+        return fbits(float(text))
+    n = int(text)
+    if n < TWO63:
+        return "i%d" % n
+    try:
+        return fbits(float(n))
+    except OverflowError:
+        return fbits(float("inf"))
+
+
+def gen_numerals(rng, n):
+    out = []
+    for v in [0, 1, 7, 10, 1 << 31, (1 << 53) - 1, (1 << 53) + 1, TWO63 - 2, TWO63 - 1, TWO63, TWO63 + 1, TWO63 + 2,
+              TWO63 + 1024, TWO63 + 1025, TWO64 - 2, TWO64 - 1, TWO64, TWO64 + 1, TWO64 + 2, 10 ** 19, 10 ** 20,
+              123456789012345678901234567890, 10 ** 308, 2 * 10 ** 308, 10 ** 400, 9223372036854775807, 9223372036854775808,
+              18446744073709551615, 18446744073709551616, 9999999999999999999, 12345678901234567890]:
+        out.append(("dec-int", "%d" % v))
+        out.append(("dec-int", "00%d" % v))
+    for h in ["0", "ff", "7fffffffffffffff", "8000000000000000", "ffffffffffffffff", "10000000000000000", "1ffffffffffffffff",
+              "123456789abcdef01", "fffffffffffffffffff", "abcdef0123456789abcd", "00000000000000000001", "FFFFFFFFFFFFFFFFF0"]:
+        out.append(("hex-int", "0x" + h))
+        out.append(("hex-int", "0X" + h.upper()))
+    for f in ["3.", ".5", "3.14", "1e10", "1E+10", "1e-5", "0.1e1", "1e400", "1e-400", "5e-324", "2.5e-324", "1.7976931348623157e308",
+              "1.7976931348623159e308", "0.000", "9007199254740993.0", "9223372036854775808.0", "1e1", "1.e1", ".1e1", "0e0",
+              "123456789012345678901234567890.5", "4.9406564584124654e-324", "2.2250738585072011e-308", "0.1", "0.3", "1e23"]:
+        out.append(("dec-float", f))
+    for f in ["0x.8", "0x1p4", "0xA.8p0", "0x1P-1", "0x.1p-1080", "0x1p1024", "0x1p1023", "0xffffffffffffffffff.0", "0x1.fffffffffffff8p0",
+              "0x1.fffffffffffff7p0", "0x10p-4", "0x.0p0", "0x1p-1074", "0x1p-1075", "0x1.8p-1074", "0xa.", "0X.Ap+2", "0x1.0000000000000800000001p0",
+              "0x1.00000000000008p0", "0x123456789abcdef012345p-20"]:
+        out.append(("hex-float", f))
+    while len(out) < n:
+        k = rng.below(5)
+        if k == 0:
+            nd = 1 + rng.below(24)
+            out.append(("dec-int", "".join(str(rng.below(10)) for _ in range(nd))))
+        elif k == 1:
+            # around the boundaries
+            base = rng.choice([TWO63, TWO64, 1 << 53, 10 ** 19])
+            out.append(("dec-int", "%d" % (base + rng.below(4096) - 2048)))
+        elif k == 2:
+            nd = 1 + rng.below(22)
+            out.append(("hex-int", rng.choice(["0x", "0X"]) + "".join(rng.choice("0123456789abcdefABCDEF") for _ in range(nd))))
+        elif k == 3:
+            a = "".join(str(rng.below(10)) for _ in range(rng.below(20)))
+            b = "".join(str(rng.below(10)) for _ in range(rng.below(20)))
+            if not a and not b:
+                a = "7"
+            t = a + "." + b if rng.chance(2, 3) else (a or b)
+            if rng.chance(1, 2) or "." not in t:
+                t += rng.choice("eE") + rng.choice(["", "+", "-"]) + str(rng.below(330))
+            out.append(("dec-float", t))
+        else:
+            a = "".join(rng.choice("0123456789abcdefABCDEF") for _ in range(rng.below(18)))
+            b = "".join(rng.choice("0123456789abcdefABCDEF") for _ in range(rng.below(18)))
+            if not a and not b:
+                a = "1"
+            t = "0x" + (a + "." + b if rng.chance(2, 3) else (a or b))
+            if rng.chance(2, 3) or "." not in t:
+                t += rng.choice("pP") + rng.choice(["", "+", "-"]) + str(rng.below(1100))
+            out.append(("hex-float", t))
+    return out
+
+
+# ----------------------------------------------------------------------------- strings
+def utf8_ext(c):
+    """Lua's extended UTF-8 (up to 2^31)"""
+    if c < 0x80:
+        return bytes([c])
+    out = []
+    mfb = 0x3f
+    while True:
+        out.append(0x80 | (c & 0x3f))
+        c >>= 6
+        mfb >>= 1
+        if c <= mfb:
+            break
+    out.append(((~mfb << 1) & 0xff) | c)
+    return bytes(reversed(out))
+
+
+SIMPLE = {"a": 7, "b": 8, "f": 12, "n": 10, "r": 13, "t": 9, "v": 11, "\\": 92, '"': 34, "'": 39}
+
+
+def gen_short_string(rng):
+    """returns (kind, source bytes of the literal, denoted bytes)"""
+    q = rng.choice(['"', "'"])
+    src = bytearray(q.encode())
+    val = bytearray()
+    kinds = set()
+    npieces = rng.below(7)
+    prev_open_decimal = False
+    for _ in range(npieces):
+        k = rng.below(12)
+        if k < 3:
+            c = rng.choice("abz XYZ09_-[]{}#%=")
+            if prev_open_decimal and c.isdigit():
+                c = "x"
+            src += c.encode()
+            val += c.encode()
+            prev_open_decimal = False
+        elif k == 3:
+            c = rng.choice(list(SIMPLE))
+            src += b"\\" + c.encode()
+            val.append(SIMPLE[c])
+            kinds.add("simple")
+            prev_open_decimal = False
+        elif k == 4:
+            nl = rng.choice(["\n", "\r", "\r\n", "\n\r"])
+            src += b"\\" + nl.encode()
+            val.append(10)
+            kinds.add("line-continuation")
+            prev_open_decimal = False
+        elif k == 5:
+            b = rng.below(256)
+            src += ("\\x%02x" % b if rng.chance(1, 2) else "\\x%02X" % b).encode()
+            val.append(b)
+            kinds.add("hex")
+            prev_open_decimal = False
+        elif k == 6:
+            b = rng.choice([0, 7, 9, 10, 65, 99, 100, 199, 200, 255, rng.below(256)])
+            nd = rng.choice([0, 3, 3])
+            s = ("%03d" % b) if nd == 3 else ("%d" % b)
+            src += b"\\" + s.encode()
+            val.append(b)
+            kinds.add("decimal")
+            prev_open_decimal = len(s) < 3
+        elif k == 7:
+            ws = "".join(rng.choice([" ", "\t", "\n", "\r\n", "\r", "\f", "\v"]) for _ in range(rng.below(4)))
+            src += b"\\z" + ws.encode()
+            kinds.add("z")
+            prev_open_decimal = False
+        elif k == 8:
+            c = rng.choice([0, 0x41, 0x7f, 0x80, 0x7ff, 0x800, 0xffff, 0x10000, 0x10ffff, 0x110000, 0x1fffff, 0x200000, 0x3ffffff,
+                            0x4000000, 0x7fffffff, rng.below(1 << 31)])
+            src += ("\\u{%s%x}" % ("0" * rng.below(3), c)).encode()
+            val += utf8_ext(c)
+            kinds.add("unicode")
+            prev_open_decimal = False
+        elif k == 9:
+            b = 0x80 + rng.below(0x80)
+            src.append(b)
+            val.append(b)
+            kinds.add("raw-high-byte")
+            prev_open_decimal = False
+        elif k == 10:
+            other = "'" if q == '"' else '"'
+            src += other.encode()
+            val += other.encode()
+            prev_open_decimal = False
+        else:
+            src += b"--"
+            val += b"--"
+            prev_open_decimal = False
+    src += q.encode()
+    return "short:" + ("+".join(sorted(kinds)) or "plain"), bytes(src), bytes(val)
+
+
+LONG_CONTENTS = ["", "]", "]=", "]]", "\n", "\n\n", "\r\nx", "\rx", "\n\rx", "x\r\ny", "x\n\ry\rz", "a]=]b", "a]==]b", "[[", "[=[", "\\n\\65",
+                 "--", "x", "]]]", "=", "\r", "\r\n", "\n\r\n", "a\n", "\"'"]
+
+
+def normalize_nl(s):
+    return re.sub(r"\r\n|\n\r|\r|\n", "\n", s)
+
+
+def gen_long_strings(rng, n):
+    out = []
+    for level in range(4):
+        for c in LONG_CONTENTS:
+            close = "]" + "=" * level + "]"
+            if close in c or (c + "]").endswith(close) and False:
+                continue
+            # content ending in ']' followed by the closing bracket could close early:  ]  + ]=] is fine, ']' + ']]' closes at the first ]]
+            if (c + close).find(close) != len(c):
+                continue
+            src = "[" + "=" * level + "[" + c + close
+            v = normalize_nl(c)
+            if v.startswith("\n"):
+                v = v[1:]
+            out.append(("long:level%d%s" % (level, ":empty" if c == "" else ""), src.encode("latin-1"), v.encode("latin-1")))
+    return out
+
+
+def lua_result(line):
+    f = line.split(" ")
+    status = f[1]
+    ret = next((x[2:] for x in f if x.startswith("R:")), "-")
+    err = next((x[2:] for x in f if x.startswith("E:")), "-")
+    msg = bytes.fromhex(err).decode("latin-1") if err not in ("-", "") and re.match(r"^[0-9a-f]+$", err) else ""
+    return status, ret, msg
 
 
 def check_literals(ck, gvh, oracle, tier, st):
-    pass
+    rng = ck.rng.fork()
+    cases = []
+    nnum = 1500 if tier == "quick" else 40000
+    for kind, text in gen_numerals(rng, nnum):
+        cases.append({"kind": kind, "src": text.encode(), "want": ref_number(text), "text": text})
+    for c in gen_long_strings(rng, 0):
+        cases.append({"kind": c[0], "src": c[1], "want": "s" + (c[2].hex() or "-")})
+    nstr = 2500 if tier == "quick" else 60000
+    for _ in range(nstr):
+        k, s, v = gen_short_string(rng)
+        cases.append({"kind": k, "src": s, "want": "s" + (v.hex() or "-")})
+    lines = []
+    for i, c in enumerate(cases):
+        pre = rng.choice([b"return ", b"return\n", b"return --[[x]] ", b"return(", b"return "])
+        post = b")" if pre.endswith(b"(") else rng.choice([b"", b"\n", b" ", b";", b" --e"])
+        c["chunk"] = pre + c["src"] + post
+        lines.append("l%d %s chunk=chunk" % (i, hexsrc(c["chunk"])))
+    out = vlib.run_lines_resilient(gvh, ["lua"], lines, per_case_timeout=30)
+    # the Coq model of integer numerals (S and IM) on the same spellings
+    ol, oidx = [], []
+    for i, c in enumerate(cases):
+        if c["kind"] in ("dec-int", "hex-int"):
+            t = c["text"].lower()
+            ol.append("n%d N %s %s" % (i, "hex" if t.startswith("0x") else "dec", t[2:] if t.startswith("0x") else t))
+            oidx.append(i)
+    rc, oo, oe = vlib.run_lines(oracle, [], ol, timeout=600)
+    if rc != 0 or len(oo) != len(ol):
+        ck.violation("oracle crashed on numerals (%d/%d)" % (len(oo), len(ol)), {"kind": "oracle-crash", "stderr": oe[-1500:]}, no_input=True)
+        oo = []
+    model = {}
+    for i, l in zip(oidx, oo):
+        f = l.split(" ")
+        model[i] = (f[1], f[2])   # S, IM  each  i<dec> | F<dec nat to be converted to float>
+    for i, c in enumerate(cases):
+        status, ret, msg = lua_result(out[i])
+        ck.count("b:" + c["kind"].split("+")[0])
+        ck.case(c["chunk"].hex(), status == "ok")
+        got = ret if status == "ok" else status + ":" + msg[:80]
+        rep = {"engine": "front", "mode": "lua", "source_hex": hexsrc(c["chunk"]), "source": c["chunk"].decode("latin-1"),
+               "literal": c["src"].decode("latin-1"), "expected": c["want"], "got": got}
+        if i in model:
+            s_den, im_den = [x if x[0] == "i" else ref_number(x[1:]) for x in model[i]]
+            rep["model_S"], rep["model_IM"] = s_den, im_den
+            if s_den != c["want"]:
+                ck.violation("Lex.v S-model disagrees with the python reference on numeral " + c["text"], dict(rep, kind="model-self"), no_input=True)
+                continue
+        if got == c["want"]:
+            if i in model and im_den != got:
+                st["go_ne_im"] += 1
+                st["first_im"] = st["first_im"] or rep
+            continue
+        kf = None
+        lit = c["src"].decode("latin-1")
+        if c["kind"].startswith("long") and re.match(r"^\[(=*)\[\]\1\]$", lit) and "index out of range" in msg:
+            kf = "C12-empty-long-string"
+        elif c["kind"] == "dec-int" and TWO63 <= int(lit) < TWO64 and got == "i%d" % (int(lit) - TWO64):
+            kf = "C12-decimal-overflow-integer"
+            if i in model and im_den != got:
+                st["go_ne_im"] += 1
+                st["first_im"] = st["first_im"] or rep
+        k = ck.known_match(lambda k_: k_["id"] == kf) if kf else None
+        if k is not None:
+            ck.known_finding(k)
+            continue
+        st["go_ne_s"] += 1
+        if st["go_ne_s"] <= 8:
+            rep["kind"] = "Go!=S"
+            rep["theorems"] = ["C12_numeral_denotation" if i in model else "(literal denotation)"]
+            ck.violation("literal %s denotes %s by the manual, golua gives %s" % (lit[:60].encode("unicode_escape").decode(), c["want"][:40], got[:60]), rep)
+    for i in (0, 3, len(cases) // 2, len(cases) - 1):
+        ck.sample({"kind": cases[i]["kind"], "literal": cases[i]["src"].decode("latin-1")[:100], "denotes": cases[i]["want"][:100]})
+    ck.log("(b) %d literal spellings" % len(cases))
+    check_invalid_literals(ck, gvh, st)
+
+
+INVALID = ['"\\400"', '"\\256"', '"\\xZ1"', '"\\x1"', '"\\u{80000000}"', '"\\u{}"', '"\\u{12"', '"\\q"', '"\\8x"[0]' if False else '"\\xg0"',
+           '"abc', "'abc\"", '"a\nb"', "[[abc", "[==[abc]=]", "0x", "0xg", "1e", "1e+", "0x1p", "3..2", "1.2.3", "0x.p1", "12a", "0x1pz", "1ee1",
+           ".e1" if False else "1e1.5"]
+
+
+def check_invalid_literals(ck, gvh, st):
+    lines = ["i%d %s chunk=chunk" % (i, hexsrc("return " + s)) for i, s in enumerate(INVALID)]
+    out = vlib.run_lines_resilient(gvh, ["lua"], lines, per_case_timeout=30)
+    for s, l in zip(INVALID, out):
+        status, ret, msg = lua_result(l)
+        ck.count("b:invalid-literal")
+        ck.case("invalid:" + s, True)
+        if status != "compile_error" or not re.match(r"^chunk:\d+:", msg):
+            st["go_ne_s"] += 1
+            ck.violation("malformed literal %r is not rejected with a positioned syntax error: %s %s" % (s, status, (ret + " " + msg)[:80]),
+                         {"kind": "Go!=S", "engine": "front", "mode": "lua", "source_hex": hexsrc("return " + s), "source": "return " + s,
+                          "expected": "compile_error chunk:<line>:…", "got": l[:400]})
+
+
+# ----------------------------------------------------------------------------- (c) equivalent renderings
+PROGRAMS = [
+    # (renderings of one program, args)
+    (["return 1+2*3, (1+2)*3, 2^3^2, -2^2, 1 ..2 ..3",
+      "return (1+(2*3)), ((1+2)*3), (2^(3^2)), (-(2^2)), (1 ..(2 ..3))",
+      "return --[[c]] 1 +\n2 --x\n* 3 , ( 1 + 2 )\r\n* 3 ,2 ^ 3 ^ 2,- 2 ^ 2, 0x1 .. 0X2 .. 3;"], ""),
+    (["local t = {10,20,30; x=1, ['y']=2} emit(#t, t.x, t['y'], t[2]) return t.x+t.y",
+      "local t={ 10 , 20 , 30 , x = 1 ; [\"y\"] = 2 , }\nemit( # t , t [ 'x' ] , t.y , ( t ) [ 2 ] )\nreturn ( t [ [[x]] ] ) + ( t [ [=[y]=] ] )"], ""),
+    (["local function f(...) return ... end emit(f(1,2,3)) emit((f(1,2,3))) emit({f(1,2,3)}, #{f(1,2,3)}, #{(f(1,2,3))}) return f(1,2), (f(1,2))",
+      "local function f ( ... )\nreturn ...\nend;emit ( f ( 1 , 2 , 3 ) ) ; emit ( ( f ( 1 , 2 , 3 ) ) ) emit ( { f ( 1 , 2 , 3 ) } , # { f ( 1 , 2 , 3 ) } , # { ( f ( 1 , 2 , 3 ) ) } ) return f ( 0x1 , 2 ) , ( ( f ( 1 , 2 ) ) )"], ""),
+    (["local s = 'a\\tb\\65\\x41\\u{41}\\z   c' emit(s, #s) return s == \"a\\9bAAAc\"",
+      "local s = \"a\\tb\\065\\x41\\u{0041}\\z\n\n  c\" emit( s , # s ) return s == [[a\tbAAAc]]"], ""),
+    (["local a, b = 7, 3 return a // b, a % b, a / b, a & b, a | b, a ~ b, ~a, a << b, a >> 1, a < b, a <= b, a ~= b, not a == b, a .. b",
+      "local a , b = 0x7 , 03 return ( a // b ) , ( a % b ) , ( a / b ) , ( a & b ) , ( a | b ) , ( a ~ b ) , ( ~ a ) , ( a << b ) , ( a >> 1 ) , ( a < b ) , ( a <= b ) , ( a ~= b ) , ( ( not a ) == b ) , ( a .. b )"], ""),
+    (["local t = setmetatable({}, {__index = function(_, k) return k .. '!' end, __call = function(self, x) return x end}) emit(t.x, t'lit', t{1}[1], t:y'z') return t.a.b",
+      "local t = setmetatable ( { } , { __index = function ( _ , k ) return k .. \"!\" end ; __call = function ( self , x ) return x end , } ) emit ( t [ 'x' ] , t ( [[lit]] ) , ( t ( { 1 } ) ) [ 1 ] , t : y ( \"z\" ) ) return ( t [ \"a\" ] ) [ 'b' ]"], ""),
+    (["for i = 1, 3 do if i == 2 then goto cont end emit(i) ::cont:: end local n = 0 while n < 2 do n = n + 1 end repeat n = n - 1 until n == 0 return n",
+      "for i=1,3 do\n if i==2 then\n  goto cont\n end\n emit(i)\n ::cont::\nend\nlocal n=0;\nwhile n<2 do n=n+1 end;\nrepeat n=n-1 until n==0;\nreturn n;"], ""),
+]
 
 
 def check_renderings(ck, gvh, tier, st):
-    pass
+    lines = []
+    for pi, (rends, _) in enumerate(PROGRAMS):
+        for ri, src in enumerate(rends):
+            lines.append("p%d_%d %s chunk=chunk" % (pi, ri, hexsrc(src)))
+    # the known-finding witness for parentheses around '...'
+    lines.append("pv %s chunk=chunk args=i1,i2,i3" % hexsrc("return (...)"))
+    lines.append("pw %s chunk=chunk args=i1,i2,i3" % hexsrc("local a, b = ... , 0 return #{(...)}, select('#', (...))"))
+    lines.append("pc %s chunk=chunk" % hexsrc("return 1 --[\n+ 1"))
+    out = vlib.run_lines_resilient(gvh, ["lua"], lines, per_case_timeout=30)
+    res = {l.split(" ")[0]: l for l in out}
+    for pi, (rends, _) in enumerate(PROGRAMS):
+        base = None
+        for ri, src in enumerate(rends):
+            l = res.get("p%d_%d" % (pi, ri), "")
+            f = l.split(" ")
+            obs = " ".join(x for x in f[1:] if x[:2] in ("T:", "R:") or x in ("ok", "error", "compile_error", "gopanic"))
+            ck.count("c:rendering")
+            ck.case(src, f[1:2] == ["ok"])
+            if f[1:2] != ["ok"] or (base is not None and obs != base):
+                st["go_ne_s"] += 1
+                ck.violation("equivalent renderings of one program behave differently (or do not run)",
+                             {"kind": "Go!=S", "engine": "front", "mode": "lua", "source_hex": hexsrc(src), "source": src,
+                              "expected": base or "ok", "got": l[:600], "first_rendering": rends[0]})
+            if base is None:
+                base = obs
+    # witnesses of recorded findings: replayed on every run
+    for cid, kid, good in (("pv", "C12-paren-vararg", "R:i1"), ("pw", "C12-paren-vararg", "R:i1,i1"), ("pc", "C12-comment-bracket-newline", "R:i2")):
+        l = res.get(cid, "")
+        ck.count("c:finding-witness")
+        ok_now = (" " + good + " ") in (l + " ")
+        k = ck.known_match(lambda k_: k_["id"] == kid)
+        if not ok_now:
+            if k is not None:
+                ck.known_finding(k)
+            else:
+                st["go_ne_s"] += 1
+                ck.violation("witness of %s fails and the finding is not recorded" % kid,
+                             {"kind": "Go!=S", "engine": "front", "mode": "lua", "got": l[:400], "expected": good})
+        elif k is not None:
+            ck.notes.append("recorded finding %s: witness no longer fails (repaired?) — model/notes are stale" % kid)
+    ck.log("(c) %d renderings" % (len(lines)))
